@@ -31,8 +31,11 @@ def scenario(rng):
         noise = rng.choice([0.5, 1.0, 5.0])
         meas.append({"proj": list(proj), "kind": kind, "noise": noise})
     total_mode = rng.choice(["given", "given", "estimated", "other", "estimated_negative"])
-    return {"attrs": attrs, "sizes": sizes, "public": pub, "private": priv, "meas": meas, "total_mode": total_mode,
-            "noise_seed": rng.randrange(10 ** 6)}
+    sc = {"attrs": attrs, "sizes": sizes, "public": pub, "private": priv, "meas": meas, "total_mode": total_mode,
+          "noise_seed": rng.randrange(10 ** 6)}
+    if rng.random() < 0.4:
+        sc["second"] = [{"proj": [attrs[0]], "kind": rng.choice(["identity", "id+total"]), "noise": rng.choice([0.5, 3.0])}]
+    return sc
 
 
 def precise_vs_imprecise(rng):
@@ -45,6 +48,33 @@ def precise_vs_imprecise(rng):
             "meas": [{"proj": ["a"], "kind": "identity", "noise": s_lo, "y": [T / 2, T / 2]},
                      {"proj": ["b"], "kind": "identity", "noise": s_hi, "y": [T, 0.0]}],
             "total_mode": "explicit", "total": T, "noise_seed": 0}
+
+
+def big_prefix(rng):
+    """Prefix-sum queries over a 64-value attribute (ill-conditioned for an iterative solver) next to a very noisy identity:
+    the estimated total must be the minimum-variance combination of both."""
+    cells = [(i, j) for i in range(64) for j in range(2)]
+    pub = [list(rng.choice(cells)) for _ in range(rng.randint(4, 10))]
+    priv = [list(rng.choice(cells)) for _ in range(rng.choice([40, 400]))]
+    return {"attrs": ["a", "b"], "sizes": [64, 2], "public": pub, "private": priv,
+            "meas": [{"proj": ["a"], "kind": "prefix", "noise": 2.0}, {"proj": ["b"], "kind": "identity", "noise": 40.0}],
+            "total_mode": "estimated", "noise_seed": rng.randrange(10 ** 6)}
+
+
+def total_oracle(meas):
+    """Minimum-variance linear estimate of the total from the measurements whose queries can express the count (dense least
+    squares, independent of the library's iterative solver), floored at 1."""
+    est, var = [], []
+    for Q, y, noise, proj in meas:
+        Q = np.asarray(Q, dtype=float)
+        ones = np.ones(Q.shape[1])
+        v = np.linalg.lstsq(Q.T, ones, rcond=None)[0]
+        if np.allclose(Q.T @ v, ones, rtol=0, atol=1e-9):
+            est.append(float(v @ y)); var.append(float(noise ** 2 * (v @ v)))
+    if not est:
+        return 1.0
+    w = 1.0 / np.array(var)
+    return max(1.0, float((w * np.array(est)).sum() / w.sum()))
 
 
 def build(sc):
@@ -115,15 +145,14 @@ def one_run(sc):
         return {"crash": repr(ex)}
     w = np.asarray(res.weights, dtype=float)
     bad, extra = [], {}
-    from mbi import public_inference
-    want_total = float(total) if total is not None else float(public_inference.estimate_total(meas))
+    want_total = float(total) if total is not None else total_oracle(meas)
     if w.shape != (len(sc["public"]),):
         bad.append("%s weights for %d public records" % (w.shape, len(sc["public"])))
     elif not np.all(np.isfinite(w)) or w.min() < 0:
         bad.append("weights not finite and non-negative: %s" % w.tolist())
     else:
-        if abs(w.sum() - want_total) > 1e-8 * max(1.0, want_total):
-            bad.append("weights sum to %r, total %r" % (float(w.sum()), want_total))
+        if abs(w.sum() - want_total) > 1e-6 * max(1.0, want_total):
+            bad.append("weights sum to %r, %s total %r" % (float(w.sum()), "given" if total is not None else "estimated (minimum-variance)", want_total))
         if not res.df.equals(df0) or res.domain != pub.domain:
             bad.append("the public records were altered")
         uni = np.full(len(w), want_total / len(w))
@@ -131,6 +160,20 @@ def one_run(sc):
         extra = {"uniform_loss": lu, "loss": lw}
         if lw > lu * (1 + 1e-9) + 1e-9:
             bad.append("reweighted data fits worse than uniform weights: loss %r vs %r" % (lw, lu))
+    # a later call on the same object with other measurements and no total: valid weights summing to THAT call's estimated total
+    if sc.get("second") and not bad:
+        try:
+            pub2, meas2, _ = build(dict(sc, meas=sc["second"], total_mode="estimated", noise_seed=sc["noise_seed"] + 1))
+            with np.errstate(all="ignore"):
+                res2 = eng.estimate(meas2, total=None)
+            w2 = np.asarray(res2.weights, dtype=float)
+            t2 = total_oracle(meas2)
+            if w2.shape != w.shape or not np.all(np.isfinite(w2)) or w2.min() < 0:
+                bad.append("second call on the same object: invalid weights %s" % w2.tolist())
+            elif abs(w2.sum() - t2) > 1e-6 * max(1.0, t2):
+                bad.append("second call on the same object (total omitted): weights sum to %r, the total estimated from that call's measurements is %r" % (float(w2.sum()), t2))
+        except Exception as ex:
+            bad.append("second call on the same object raised %r" % ex)
     tr, steps = to_trace(list(ev))
     return {"bad": bad, "extra": extra, "trace": tr, "neg": sum(1 for f in steps if f["rhs"] < -1e-12),
             "inc": sum(1 for f, e in zip(steps, tr) if e["moved"] and f["new_loss"] > f["loss"] * (1 + 1e-12) + 1e-12)}
@@ -150,7 +193,7 @@ def run(ctx, canary=False):
         ctx.violation("design-level: %s violated in PublicMD.tla" % r.violated, {"tlc": r.trace_text()}, {"kind": "design"})
     traces = []
     stats = {"negative_rhs_steps": 0, "accepted_increase": 0, "runs": 0}
-    scs = [scenario(rng) for _ in range(900 if thorough else 110)] + [precise_vs_imprecise(rng) for _ in range(60 if thorough else 8)]
+    scs = [scenario(rng) for _ in range(900 if thorough else 110)] + [precise_vs_imprecise(rng) for _ in range(60 if thorough else 8)] + [big_prefix(rng) for _ in range(20 if thorough else 4)]
     import multiprocessing
     with multiprocessing.get_context("fork").Pool(16) as pool:
         outs = pool.map(one_run, scs, chunksize=2)
@@ -190,7 +233,7 @@ def run(ctx, canary=False):
             ctx.deviation("run is not a behaviour of PublicMD.tla: " + T.describe_reject(t, reached), {"info": t["info"]})
     if traces:
         ctx.sample({"H5 trace": traces[0]["info"], "events": traces[0]["events"][:5]})
-    ctx.assumptions += ["fresh PublicInference object per scenario (repeated calls on one object are outside the property's quantifier)",
+    ctx.assumptions += ["fresh PublicInference object per scenario; a second call on the same object is only required to return valid weights summing to its own total (the fit clause is not applied to warm-started calls)",
                         "loss recomputed from Dataset.project(...).datavector() of the returned weighted data"]
 
 
